@@ -4,8 +4,107 @@ from . import storecheck
 CHECKS = ('c02',)
 
 
+def equal_owner_pass(ctx):
+    """owners that compare equal without being identical (a static class may define __eq__ / __hash__, by name say): a
+    child given to the second of two equal boxes leaves the first one; the same for two equal roots of a resource"""
+    from . import common
+    from pyecore import ecore as E
+    from pyecore.resources.resource import Resource
+    for k in range(12 if ctx.quick() else 100):
+        rng = common.sub_rng(ctx.seed, 'C02', 'equal-owner', k)
+        many = rng.random() < .6
+
+        class Box(E.EObject, metaclass=E.MetaEClass):
+            name = E.EAttribute(eType=E.EString)
+            items = E.EReference(upper=-1 if many else 1, containment=True)
+
+            def __init__(self, name=None):
+                super().__init__()
+                self.name = name
+
+            def __eq__(self, other):
+                return isinstance(other, Box) and other.name == self.name
+
+            def __hash__(self):
+                return hash(self.name)
+
+        class Item(E.EObject, metaclass=E.MetaEClass):
+            label = E.EAttribute(eType=E.EString)
+        Box.items.eType = Item
+        b1, b2, x = Box('a'), Box('a'), Item()
+
+        def put(b):
+            if many:
+                b.items.append(x)
+            else:
+                b.items = x
+
+        def holds(b):
+            return any(v is x for v in (b.items if many else ([b.items] if b.items is not None else [])))
+        put(b1); put(b2)
+        ctx.evaluations += 1
+        ctx.count('equal-owner/' + ('many' if many else 'single'))
+        ctx.nontriv(('equal-owner', k))
+        if holds(b1) or not holds(b2) or x.eContainer() is not b2:
+            ctx.violate({'clause': 'multi-owner', 'equal_owners': True},
+                        f'multi-owner: a child given to the second of two equal (not identical) containers: first holds it {holds(b1)}, '
+                        f'second holds it {holds(b2)}, eContainer() is the second {x.eContainer() is b2}', {'equal_owner': k, 'many': many})
+            return
+        # two equal roots: removing the second must not take out the first
+        r = Resource()
+        r.append(b1); r.append(b2)
+        r.remove(b2)
+        if not (len(r.contents) == 1 and r.contents[0] is b1 and b1.eResource is r and b2.eResource is None):
+            ctx.violate({'clause': 'wrong-resource', 'equal_owners': True},
+                        'wrong-resource: of two equal roots the second was removed: the resource now lists '
+                        f'{["first" if c is b1 else "second" for c in r.contents]}, first.eResource is r: {b1.eResource is r}, '
+                        f'second.eResource is None: {b2.eResource is None}', {'equal_owner': k, 'roots': True})
+            return
+
+
+def resource_extend_pass(ctx):
+    """Resource.extend: a batch with a value that is refused leaves the resource and the other values as they were; a
+    containment collection handed over directly gives up all its elements"""
+    from . import common
+    from pyecore import ecore as E
+    from pyecore.resources.resource import Resource
+    for k in range(12 if ctx.quick() else 100):
+        rng = common.sub_rng(ctx.seed, 'C02', 'resource-extend', k)
+        A = E.EClass('A')
+        A.eStructuralFeatures.append(E.EReference('kids', A, upper=-1, containment=True))
+        p = A()
+        kids = [A() for _ in range(rng.randint(2, 5))]
+        p.kids.extend(kids)
+        r, other = Resource(), Resource()
+        roots = [A() for _ in range(rng.randint(1, 3))]
+        other.extend(roots)
+        bad = rng.choice(['bad', 3, None, object()])
+        batch = roots[:rng.randint(0, len(roots))] + [bad] + kids[:1]
+        ctx.evaluations += 1
+        ctx.nontriv(('resource-extend', k))
+        try:
+            r.extend(batch)
+            raised = None
+        except Exception as e:
+            raised = type(e).__name__
+        if raised and (len(r.contents) or any(x.eResource is not other for x in roots) or kids[0].eContainer() is not p):
+            ctx.violate({'clause': 'failed-op-changed-ownership', 'op': 'Resource.extend'},
+                        f'failed-op-changed-ownership: Resource.extend with a refused value ({type(bad).__name__}) raised {raised}, '
+                        f'but the resource now has {len(r.contents)} root(s)', {'resource_extend': k})
+            return
+        r2 = Resource()
+        r2.extend(p.kids)
+        if len(p.kids) or [id(x) for x in r2.contents] != [id(x) for x in kids] or any(x.eContainer() is not None for x in kids):
+            ctx.violate({'clause': 'wrong-resource', 'op': 'Resource.extend'},
+                        f'wrong-resource: Resource.extend(owner.kids) with {len(kids)} children: {len(r2.contents)} became roots, '
+                        f'{len(p.kids)} stayed with their container', {'resource_extend': k, 'live': True})
+            return
+
+
 def run(ctx):
     storecheck.run(ctx, CHECKS)
+    equal_owner_pass(ctx)
+    resource_extend_pass(ctx)
 
 
 def search(ctx):
@@ -13,4 +112,13 @@ def search(ctx):
 
 
 def replay(ctx, data):
+    rp = data.get('replay', {})
+    if 'equal_owner' in rp or 'resource_extend' in rp:
+        from . import common
+        common.use_repo()
+        c2 = common.Ctx('C02', 'quick', data.get('seed', 0))
+        (equal_owner_pass if 'equal_owner' in rp else resource_extend_pass)(c2)
+        for v in c2.violations:
+            print('  ', v['what'])
+        return 1 if c2.violations else 0
     return storecheck.replay(ctx, data, CHECKS)
